@@ -1267,8 +1267,10 @@ impl<'a, 'd> Gen<'a, 'd> {
 
     fn gen_pkg(&mut self, p: usize) {
         let is_main = p == 0;
+        // a library of declarations only: types, no function, no impl (its core has no toplevels)
+        let decl_only = !is_main && self.d.chance(45);
         // ---- structs
-        let ns = self.d.below(3);
+        let ns = if decl_only { 1 + self.d.below(2) } else { self.d.below(3) };
         for _ in 0..ns {
             let taken = self.proj.item_names(p);
             let name = self.pick_name(STRUCT_NAMES, &taken);
@@ -1311,6 +1313,9 @@ impl<'a, 'd> Gen<'a, 'd> {
                 variants.push((v, payload));
             }
             self.push(p, ItemKind::Enum { name, generic, variants });
+        }
+        if decl_only {
+            return;
         }
         // ---- traits
         let nt = self.d.below(3).min(if is_main { 1 } else { 2 });
@@ -1873,6 +1878,9 @@ impl Project {
         let n = self.pkgs.len();
         let mut out: BTreeSet<String> = BTreeSet::new();
         out.insert(format!("pkgs:{n}"));
+        if self.pkgs.iter().skip(1).any(|p| !p.items.is_empty() && p.items.iter().all(|i| matches!(i.kind, ItemKind::Struct { .. } | ItemKind::Enum { .. }))) {
+            out.insert("decl-only-package".into());
+        }
         let edges: usize = self.pkgs.iter().map(|p| p.imports.len()).sum();
         let max_in = (0..n).map(|j| self.pkgs.iter().filter(|p| p.imports.contains(&j)).count()).max().unwrap_or(0);
         let shape = if n == 1 {
